@@ -215,9 +215,29 @@ def periodic_species():
     return tuple(out)
 
 
+HYPERVALENT_H = ["[SH4]", "C[SH2]C", "[PH5]", "C[PH4]", "C[IH2]", "[SH6]", "C[PH2](C)C", "C[SH3]", "C[PH](C)(C)C",
+                 "[IH3]", "C[SH4]C", "O=[SH2]", "[IH5]", "F[SH](F)(F)(F)F", "c1ccccc1[SH2]C", "CC[PH3]C"]
+
+
+def hypervalent_h(smiles):
+    """True if some neutral B/C/N/O/P/S/halogen atom carries explicit H in a valence above the element's default
+    (known finding K15: such atoms lose hydrogens when remove_atom_mapping un-brackets them). General generators
+    exclude these by construction; C15 generates them on purpose."""
+    m = oracle.parse(smiles)
+    if m is None:
+        return False
+    pt = Chem.GetPeriodicTable()
+    for a in m.GetAtoms():
+        if a.GetSymbol() in ("B", "C", "N", "O", "P", "S", "F", "Cl", "Br", "I") and a.GetFormalCharge() == 0 \
+                and a.GetTotalNumHs() > 0 and a.GetTotalValence() > pt.GetDefaultValence(a.GetAtomicNum()):
+            return True
+    return False
+
+
 @functools.lru_cache(maxsize=None)
-def periodic_closed_shell():
-    return tuple(s for s in periodic_species() if oracle.closed_shell(s))
+def periodic_closed_shell(exclude_hypervalent=True):
+    return tuple(s for s in periodic_species() if oracle.closed_shell(s)
+                 and not (exclude_hypervalent and hypervalent_h(s)))
 
 
 def molecule(closed_shell=True, max_heavy=None, periodic=True):
@@ -455,3 +475,22 @@ def with_markers(draw, rx_strategy, max_markers=2):
             pos = draw(st.integers(0, len(sides[k])))
             sides[k].insert(pos, m)
     return ".".join(sides[0]) + ">>" + ".".join(sides[1]), list(tags) + ["markers"]
+
+
+@functools.lru_cache(maxsize=None)
+def mcs_prone_reactions(max_heavy=30, max_mols=4):
+    """closed-shell corpus reactions whose reactants carry more carbon than the products (these reach the MCS stage)"""
+    out = []
+    for r in load_reactions_capped("input", max_heavy, max_mols):
+        if not oracle.reaction_closed_shell(r):
+            continue
+        a, b = oracle.split_reaction(r)
+        ca, cb = oracle.count_element(a, "C"), oracle.count_element(b, "C")
+        if ca is not None and cb is not None and ca > cb:
+            out.append(r)
+    return tuple(out)
+
+
+@st.composite
+def mcs_prone_reaction(draw, max_heavy=30, max_mols=4):
+    return draw(indexed(mcs_prone_reactions(max_heavy, max_mols))), ["corpus", "mcs-prone"]
